@@ -18,6 +18,10 @@ use write_fonts::tables::layout::builders::{ClassDefBuilder, CoverageTableBuilde
 
 #[path = "c16/e2e.rs"]
 mod e2e;
+#[path = "c16/ppf1.rs"]
+mod ppf1;
+#[path = "c16/split2.rs"]
+mod split2;
 
 fn g16(v: u16) -> GlyphId16 {
     GlyphId16::new(v)
@@ -966,6 +970,8 @@ fn run(cfg: &Config, s: &mut Session) {
     for _ in 0..(if t { 20000 } else { 2500 }) {
         classdef_builder_case(s, &mut rng);
     }
+    ppf1::run(cfg, s, &mut rng);
+    split2::run(cfg, s, &mut rng);
     e2e::run(cfg, s, &mut rng);
 }
 
